@@ -590,7 +590,8 @@ pub fn check_step(s: &Step, tr: &mut Tracker, viols: &mut Vec<Viol>) -> Decides 
                     exp.push_str(&format!("k{}: v{}", e.id, e.vtok));
                 }
                 exp.push('}');
-                if *sg != exp {
+                // only the ORDER is this property's business: compare the sequence of keys shown
+                if debug_key_sequence(sg) != pre.ids() {
                     out.push(C05, "debug-order", format!("Debug output {} differs from recency order {}", sg, exp));
                 }
             }
@@ -1000,6 +1001,28 @@ pub fn check_step(s: &Step, tr: &mut Tracker, viols: &mut Vec<Viol>) -> Decides 
     }
 
     Decides(dec)
+}
+
+/// Key ids in the order in which a Debug rendering shows them (keys render as `k<id>`).
+pub fn debug_key_sequence(s: &str) -> Vec<u32> {
+    let b = s.as_bytes();
+    let mut v = Vec::new();
+    let mut i = 0;
+    while i < b.len() {
+        if b[i] == b'k' && i + 1 < b.len() && b[i + 1].is_ascii_digit() && (i == 0 || !b[i - 1].is_ascii_alphanumeric()) {
+            let mut j = i + 1;
+            let mut n: u64 = 0;
+            while j < b.len() && b[j].is_ascii_digit() {
+                n = n * 10 + (b[j] - b'0') as u64;
+                j += 1;
+            }
+            v.push(n as u32);
+            i = j;
+        } else {
+            i += 1;
+        }
+    }
+    v
 }
 
 pub fn diff_obs(a: &Obs, b: &Obs) -> String {
